@@ -156,7 +156,7 @@ def classify(prop, mech_counts, mech_cases):
 
 
 def write_replays(prop, violations, mech_cases):
-    d = os.path.join(VERIF, 'replays', prop)
+    d = os.path.join(VERIF, 'replays' if REPO == '/repo' else os.path.join('.scratch', 'replays_mutants'), prop)
     os.makedirs(d, exist_ok=True)
     paths = []
     for i, mech in enumerate(violations):
@@ -265,8 +265,9 @@ def main(argv):
         ],
         'wall_s': wall, 'violations': int(sum(m['mech_counts'][k] for k in violations)),
     }
-    os.makedirs(os.path.join(VERIF, 'evidence'), exist_ok=True)
-    with open(os.path.join(VERIF, 'evidence', f'{prop}.json'), 'w') as f:
+    evdir = os.path.join(VERIF, 'evidence') if REPO == '/repo' else os.path.join(VERIF, '.scratch', 'evidence_mutants')
+    os.makedirs(evdir, exist_ok=True)
+    with open(os.path.join(evdir, f'{prop}.json'), 'w') as f:
         json.dump(ev, f, indent=1, default=str)
 
     # ---- report -----------------------------------------------------------------------------
